@@ -107,7 +107,8 @@ pub fn run(o: &mut Out, seed: u64, thorough: bool, replay: Option<Vec<String>>) 
     let sks: Vec<SecretKey> = (1..5u8).map(|i| SecretKey::from_seed(&[i; 32])).collect();
     let pool = pools();
     let mal = malformed_key();
-    let amounts: [u64; 14] = [0, 1, 0x7f, 0x80, 0xff, 0x7fff, 0x8000, 0x7f_ffff, 0x80_0000, 0x7fff_ffff, 0x8000_0000, 0x7fff_ffff_ffff_ffff, 0x8000_0000_0000_0000, u64::MAX];
+    let amounts: [u64; 24] = [0, 1, 0x7f, 0x80, 0xff, 0x7fff, 0x8000, 0x7f_ffff, 0x80_0000, 0x7fff_ffff, 0x8000_0000, 0x7f_ffff_ffff, 0x80_0000_0000, 0x7fff_ffff_ffff, 0x8000_0000_0000,
+        0x7f_ffff_ffff_ffff, 0x80_0000_0000_0000, 0x0100_0000_0000_0000, 0x0400_0000_0000_0000, 0x07ff_ffff_ffff_ffff, 0x0800_0000_0000_0000, 0x7fff_ffff_ffff_ffff, 0x8000_0000_0000_0000, u64::MAX];
     // make_aggsig_final_message on every opcode x amount class
     for op in [43u8, 44, 45, 46, 47, 48, 49, 50, 51] { for amt in amounts { for msg in [&b""[..], b"m", &[0x80u8; 32]] {
         fm_case(o, op, msg, &pool.ids[0], &pool.ids[1], amt);
